@@ -247,6 +247,9 @@ func visitInstr(fr *frame, instr ssa.Instruction) continuation {
 		if addr == nil {
 			panic(targetPanic{runtimeErr("invalid memory address or nil pointer dereference")})
 		}
+		if fr.m.raceOn {
+			fr.m.noteCell(fr, addr, true)
+		}
 		store(mustDeref(instr.Addr.Type()), addr, fr.get(instr.Val))
 
 	case *ssa.If:
